@@ -76,7 +76,7 @@ def statements(body):
         elif d == 0 and c == "}":
             rest = body[i + 1:].lstrip()
             txt = norm("".join(cur))
-            if (txt.startswith("if ") or txt.startswith("{")) and not rest.startswith(("else", ".", "?", ";", ")")):
+            if txt.startswith(("if ", "{", "for ", "while ", "match ")) and not rest.startswith(("else", ".", "?", ";", ")")):
                 out.append(txt); cur = []
         i += 1
     tail = norm("".join(cur))
